@@ -19,6 +19,8 @@ import (
 //   key description as in C01 (c01.Spec); c, ad = what Decrypt is called with;
 //   kind = how c/ad were derived from a valid (c0, ad0) for plaintext p0:
 //     valid | adnil            unmodified (adnil: empty AD passed as nil)      -> must decrypt to p0
+//     xtmpl | ncdek.<how>      envelope over an AES-CTR-HMAC data key built with ANOTHER template of that
+//                              type / around another protobuf encoding of the data key  -> must decrypt to p0
 //     flip.<bit> | cut.<n> | front.<n> | ext.<n> | ins.<pos> | pfx.<how> |
 //     ad.<how> | otherkey | rand | hdr.<how> (envelope length header)          -> must be rejected
 //     huge.<len>               c = <len> zero bytes (lazily mapped), starting with the
@@ -157,7 +159,7 @@ func check(line, obs string) string {
 		}
 		return "AES-CTR-HMAC with a 2^" + kind[6:] + "-byte associated data: " + obs + ", want " + want
 	}
-	if kind == "valid" || kind == "adnil" {
+	if kind == "valid" || kind == "adnil" || kind == "xtmpl" || strings.HasPrefix(kind, "ncdek.") {
 		if obs != "ok:"+hx.H(p0) {
 			return "a valid ciphertext is not decrypted to its plaintext: " + obs
 		}
@@ -514,6 +516,39 @@ func gen(r *hx.Rng, n int, tier string) []string {
 			for _, mu := range mutations(r, s, c0, ad, false, 3) {
 				out = append(out, line(s, mu.kind, mu.c, mu.ad, nil))
 			}
+		}
+	}
+	// the envelope AEAD consults only the TYPE of its data-key template (fourth audit A1): an envelope built
+	// with one AES-CTR-HMAC template is decrypted by an envelope AEAD constructed with another (kind xtmpl),
+	// and a data key in any other protobuf encoding of the same message is as good (kind ncdek.<how>); the
+	// modifications of those envelopes are still rejected
+	etm := c01.EtmDEKNames()
+	for i := 0; i < 3*len(etm); i++ {
+		a, b := etm[i%len(etm)], etm[(i+1+r.Intn(len(etm)-1))%len(etm)]
+		k := c01.RandSpec(r)
+		for k.Scheme == "env" {
+			k = c01.RandSpec(r)
+		}
+		sA, sB := c01.EnvOver(k, a), c01.EnvOver(k, b)
+		pt, ad := r.Bytes(r.Intn(3)*r.Intn(20)), r.Bytes(c01.PickLen(r, 20))
+		kind := "xtmpl"
+		if i%3 != 0 {
+			if i%3 == 2 {
+				// every data-key type, not only AES-CTR-HMAC
+				a = c01.DEKNames[(i/3)%len(c01.DEKNames)]
+				sA = c01.EnvOver(k, a)
+			}
+			sB = c01.EnvOver(k, a)
+			sA.DEKEncoding = c01.NonCanonicalHows[(i/3+i)%len(c01.NonCanonicalHows)]
+			kind = "ncdek." + sA.DEKEncoding
+		}
+		c0, ok := sA.Independent(r.Bytes(sA.IVLen()), pt, ad)
+		if !ok {
+			continue
+		}
+		out = append(out, line(sB, kind, c0, ad, pt))
+		for _, mu := range mutations(r, sB, c0, ad, false, 1) {
+			out = append(out, line(sB, mu.kind, mu.c, mu.ad, nil))
 		}
 	}
 	out = append(out, ksLegacyCases(r)...)
